@@ -625,3 +625,49 @@ twin('C08', 'c08-twin-while-true', COND,
      "        while not self:\n            with ExitStack() as stack:\n                for child in self._children:\n                    # we only need to wait for children which\n                    # are not True yet\n                    if child:\n                        continue\n                    stack.enter_context(child.__subscription__())\n                await Hibernate()  # hibernate until a child condition triggers\n        return True",
      "        while True:\n            if self:\n                return True\n            with ExitStack() as stack:\n                for child in self._children:\n                    # we only need to wait for children which\n                    # are not True yet\n                    if child:\n                        continue\n                    stack.enter_context(child.__subscription__())\n                await Hibernate()  # hibernate until a child condition triggers",
      'loop rewritten')
+
+# ------------------------------------------------------------------------- C07
+mutant('C07', 'c07-no-unsubscribe', CONTEXT,
+       "    def _disable_interrupts(self):\n        self._notification.__unsubscribe__(self._activity, self._interrupt)\n        super()._disable_interrupts()",
+       "    def _disable_interrupts(self):\n        super()._disable_interrupts()",
+       'P', 'a finished until-block is still interrupted later')
+mutant('C07', 'c07-override-not-chained', CONTEXT,
+       "        self._notification.__unsubscribe__(self._activity, self._interrupt)\n        super()._disable_interrupts()",
+       "        self._notification.__unsubscribe__(self._activity, self._interrupt)",
+       'P', 'the scope stays interruptable / its cancel signal is not revoked')
+mutant('C07', 'c07-subscribe-before-enter', CONTEXT,
+       "        await super().__aenter__()\n        self._notification.__subscribe__(self._activity, self._interrupt)",
+       "        self._notification.__subscribe__(self._activity, self._interrupt)\n        await super().__aenter__()",
+       'P InterruptScope.__aenter__', 'subscribes with activity None')
+mutant('C07', 'c07-suppress-any-interrupt', CONTEXT,
+       "        return exc_val is self._interrupt or super()._is_suppressed(exc_val)",
+       "        return isinstance(exc_val, CancelScope) or super()._is_suppressed(exc_val)",
+       'suppress', 'an outer until-scope\'s signal is swallowed by an inner one')
+mutant('C07', 'c07-suppress-nothing', CONTEXT,
+       "        return exc_val is self._interrupt or super()._is_suppressed(exc_val)",
+       "        return super()._is_suppressed(exc_val)",
+       'suppress', 'the interrupt escapes the until-block')
+mutant('C07', 'c07-condition-subscribe-never-immediate', COND,
+       "        if self:\n            interrupt.scheduled = True\n            __USIM_STATE__.loop.schedule(waiter, signal=interrupt)\n        else:\n            super().__subscribe__(waiter, interrupt)",
+       "        super().__subscribe__(waiter, interrupt)",
+       'I', 'until(already true) never fires')
+mutant('C07', 'c07-condition-subscribe-always-immediate', COND,
+       "        if self:\n            interrupt.scheduled = True\n            __USIM_STATE__.loop.schedule(waiter, signal=interrupt)\n        else:\n            super().__subscribe__(waiter, interrupt)",
+       "        interrupt.scheduled = True\n        __USIM_STATE__.loop.schedule(waiter, signal=interrupt)",
+       'I', 'until(flag) fires at once although the flag is not set')
+mutant('C07', 'c07-run-till-after', 'usim/__init__.py',
+       "            async with until(time == _till) as scope:",
+       "            async with until(time >= _till + 1) as scope:",
+       'R', 'runs one time unit too long')
+mutant('C07', 'c07-run-reversed', 'usim/__init__.py',
+       "                for activity in _activities:\n                    scope.do(activity)",
+       "                for activity in reversed(_activities):\n                    scope.do(activity)",
+       'R', 'roots start in reverse order')
+mutant('C07', 'c07-delay-subscribe-at', TIMING,
+       "        __USIM_STATE__.loop.schedule(waiter, interrupt, delay=self.duration)",
+       "        __USIM_STATE__.loop.schedule(waiter, interrupt, at=self.duration)",
+       'I subscribe:Delay', 'until(time + d) fires at date d')
+twin('C07', 'c07-twin-atoms-reordered', CONTEXT,
+     "        return exc_val is self._interrupt or super()._is_suppressed(exc_val)",
+     "        return super()._is_suppressed(exc_val) or exc_val is self._interrupt",
+     'disjuncts swapped')
